@@ -292,6 +292,43 @@ mod proofs {
     std::mem::forget(g);
   }
 
+  /// multi-byte text: the fixed 7-byte layout `x0 é x1 é x2` (x_i symbolic in {a, \n}), node
+  /// range on character boundaries: byte offsets and character columns differ on every
+  /// line that contains an `é` before the match
+  #[kani::proof]
+  #[kani::unwind(10)]
+  fn c16_display_context_multibyte7() {
+    let mut buf = [b'a', 0xC3, 0xA9, b'a', 0xC3, 0xA9, b'a'];
+    if kani::any() {
+      buf[0] = b'\n';
+    }
+    if kani::any() {
+      buf[3] = b'\n';
+    }
+    if kani::any() {
+      buf[6] = b'\n';
+    }
+    let len = 7;
+    let s: usize = kani::any();
+    let e: usize = kani::any();
+    let before: usize = kani::any();
+    let after: usize = kani::any();
+    kani::assume(s <= e && e <= len && before <= 1 && after <= 1);
+    kani::assume(is_boundary(&buf, len, s) && is_boundary(&buf, len, e));
+    let src = as_str(&buf, len);
+    let g = mk_grep(src, single_node(&buf[..len], s as u32, e as u32));
+    let dc = g.root().display_context(before, after);
+    let (lead, trail, line) = spec_context(&buf[..len], s, e, before, after);
+    kani::cover!(before == 0 && s >= 3 && lead == 0);
+    kani::cover!(before == 0 && lead > 0 && s > lead + 1);
+    kani::cover!(line > 0);
+    assert!(dc.leading.as_bytes() == &buf[lead..s]);
+    assert!(dc.trailing.as_bytes() == &buf[e..trail]);
+    assert!(dc.matched.as_bytes() == &buf[s..e]);
+    assert!(dc.start_line == line);
+    std::mem::forget(g);
+  }
+
   #[kani::proof]
   #[kani::unwind(8)]
   fn c16_display_context_len3() {
